@@ -460,6 +460,41 @@ var corpus = []scripted{
 			h.goodSuffix()
 		})
 	}},
+	{"the broker stops inside a multi-byte remaining length and stays silent", baseOpts(), func(h *hist) {
+		h.quiet(func() {
+			h.sc.budgetIn = 0
+			h.connectQuiet()
+			h.sc.inject = [][]byte{{0x30, 0x80}} // head and the first of two length bytes in one transfer
+			h.sc.silentAfter = true
+			h.doRead() // the read of the second length byte has a deadline: expiry, connection left
+			h.doRead() // redials
+			h.sc.inject = [][]byte{{0x32, 0xff, 0x80}}
+			h.sc.silentAfter = true
+			h.doRead()
+			h.doRead()
+			h.goodSuffix()
+		})
+	}},
+	{"refusing CONNACKs that carry flag bits (clean session requested)", func() seqOpts { o := baseOpts(); o.clean = true; return o }(), func(h *hist) {
+		h.quiet(func() {
+			h.sc.budgetIn = 0
+			h.sc.connacks = [][]byte{{0x20, 2, 1, 5}, {0x20, 2, 2, 3}, {0x20, 2, 0x80, 1}, {0x20, 2, 0xff, 0xff}, {0x20, 2, 1, 4}}
+			for i := 0; i < 5; i++ {
+				h.doRead()
+			}
+			h.goodSuffix()
+		})
+	}},
+	{"refusing CONNACKs that carry flag bits", baseOpts(), func(h *hist) {
+		h.quiet(func() {
+			h.sc.budgetIn = 0
+			h.sc.connacks = [][]byte{{0x20, 2, 1, 2}, {0x20, 2, 3, 3}, {0x20, 2, 0x40, 200}}
+			for i := 0; i < 3; i++ {
+				h.doRead()
+			}
+			h.goodSuffix()
+		})
+	}},
 	{"the broker stops in the middle of an acknowledgement and stays silent", baseOpts(), func(h *hist) {
 		h.quiet(func() {
 			h.sc.budgetIn = 0
